@@ -706,6 +706,16 @@ func (tic *TermInCommittee) isViewChangeValid(expectedLeaderFromNewView primitiv
 		return fmt.Errorf("sender %s is not a member of the committee", Str(sender.MemberId()))
 	}
 
+	if header.MessageType() != protocol.LEAN_HELIX_VIEW_CHANGE {
+		return fmt.Errorf("signed header of type %s is not a VIEW_CHANGE", header.MessageType())
+	}
+
+	if preparedProof != nil && len(preparedProof.Raw()) > 0 && preparedProof.PreprepareBlockRef() != nil &&
+		!preparedProof.PreprepareBlockRef().InstanceId().Equal(header.InstanceId()) {
+		// a quorum of another instance (same members, same keys) prepared a block of another chain
+		return fmt.Errorf("prepared proof is for a different instanceId")
+	}
+
 	if !proofsvalidator.ValidatePreparedProof(tic.State.Height(), vcmView, preparedProof, tic.keyManager, tic.committeeMembers, func(view primitives.View) primitives.MemberId { return tic.calcLeaderMemberId(view) }) {
 		return fmt.Errorf("failed ValidatePreparedProof()")
 	}
@@ -744,6 +754,9 @@ func (tic *TermInCommittee) validateViewChangeVotes(targetInstanceId primitives.
 		// every vote counted towards the quorum must be a genuine vote of a committee member for this instance
 		if !confirmation.SignedHeader().InstanceId().Equal(targetInstanceId) {
 			return fmt.Errorf("confirmation of memberId %s is for a different instanceId", senderMemberIdStr)
+		}
+		if confirmation.SignedHeader().MessageType() != protocol.LEAN_HELIX_VIEW_CHANGE {
+			return fmt.Errorf("confirmation of memberId %s is not a signed VIEW_CHANGE header", senderMemberIdStr)
 		}
 		if !proofsvalidator.IsInMembers(tic.committeeMembers, confirmation.Sender().MemberId()) {
 			return fmt.Errorf("confirmation sender %s is not a member of the committee", senderMemberIdStr)
